@@ -6,6 +6,18 @@ VERIF = os.path.dirname(os.path.dirname(os.path.abspath(__file__)))
 
 # id -> (technique, level text, level note, design ref)
 CHECKS = {
+    "C01": ("model-based history search: exhaustive BFS over all operation sequences of length <= 3/4 + Hypothesis-generated operation lists, dict-of-lists reference model checked after every step",
+            "Histories of feature-table calls (create/update/remove, bracket forms, operator objects, expressions) are interpreted against a "
+            "dict model; after every step listed names, per-observation column counts, every value read by name and by (name, index), "
+            "coordinates and timestamps are compared with the model. All sequences up to the depth bound are enumerated; longer ones sampled.",
+            "Trusts the model (documented meaning of each call) and vt.exprs.evaluate for operator/expression results; undefined arithmetic is not issued.",
+            "DESIGN.md 4/C01"),
+    "C02": ("grammar-based generation of expression trees printed to user syntax (exhaustive to depth 3 over a small alphabet, random to depth 6), differential against an own tree evaluator and against direct operator-object calls",
+            "Expression trees are printed with minimal and with redundant parentheses, blanks, alternative spellings and the documented unary-minus "
+            "forms, evaluated by tracklib and by an independent evaluator with the documented operator semantics; exact equality on dyadic data, "
+            "1e-9 otherwise; effects of '=' (create / overwrite / coordinate) and absence of side effects are compared on full track snapshots.",
+            "Trusts vt.exprs.evaluate (Python arithmetic) as the meaning of the documented operators; undefined or numerically fragile arithmetic is not judged.",
+            "DESIGN.md 4/C02"),
     "C03": ("exhaustive enumeration of all 47 482 days + per-second boundary days + Hypothesis pairs/offsets, differential against Python datetime/calendar",
             "Every calendar day 1970-2099 is converted in both directions at five instants and compared field by field with Python's "
             "datetime; boundary days are swept per second; ordering and offsets are sampled with calendar-boundary-weighted generators. "
